@@ -33,6 +33,23 @@ Proof.
 Qed.
 Print Assumptions C09_post_arc.
 
+(* repeated invocations: grid and nodes are unchanged and the graph stays well formed, so the postcondition
+   holds after every successful call of a sequence of calls *)
+Theorem C09_post_arc_repeated :
+  forall highs I I' x,
+    Inv (ig I) -> NoDup (igrid I) -> In (Ok (I', x)) (mf_arc_iter I highs) ->
+    length x = num_variables I' /\ Arc_facts.binary x /\ Ax I' x = rhs I'.
+Proof.
+  induction highs as [|h hs IH]; simpl; intros I I' x HI Hg Hin; [contradiction|].
+  destruct (mf_arc I h) as [[J y]|e] eqn:E.
+  - destruct (mf_arc_post I h J y E HI Hg) as (_ & _ & _ & _ & _ & _ & F & G & _ & Q & Eg & _ & HJ).
+    destruct Hin as [Heq|Hin].
+    + inversion Heq; subst. auto.
+    + apply (IH J); auto. rewrite Eg. exact Hg.
+  - destruct Hin as [Heq|[]]. discriminate.
+Qed.
+Print Assumptions C09_post_arc_repeated.
+
 (* the fuel of the `while building_route` loop never runs out: the model cannot answer Err OtherError *)
 Theorem C09_arc_fuel_suffices : forall I high, mf_arc I high <> Err OtherError.
 Proof. exact mf_arc_fuel. Qed.
